@@ -11,6 +11,19 @@ ALPHA = list("?*$:<>()[]{},-!/.ab") + ["é", "中", "\n", " ", "^", "|", "i", "(
 def strings(seed, n):
     r = random.Random(seed)
     out = ["", "a", "/", "a/b", "?*$:<>()[]{},", "-", "(?i)a", "[a]", "**", "a/**/b", "{a,b}", "<a:1,2>", "/a", "a/", "!", "[!a]", "中/é", "\n"]
+    # characters that are not meta-characters but share their low byte, or their low 16 bits, with one (a truncating
+    # conversion would confuse them), and a spread of scalars from every plane
+    for pch in "?*$:<>()[]{},-!/\\.^|~&#+":
+        for hi in (0x100, 0x6700, 0x1F600, 0x10000, 0xFF00, 0x2000):
+            cp = (hi & ~0xFF) | ord(pch)
+            if 0xD800 <= cp < 0xE000 or cp > 0x10FFFF:
+                continue
+            c = chr(cp)
+            out += [c, "a" + c + ".txt", c + "/" + c]
+    for _ in range(min(400, n // 4)):
+        cp = r.choice([r.randrange(0x80, 0x800), r.randrange(0x800, 0xD800), r.randrange(0xE000, 0x10000), r.randrange(0x10000, 0x110000)])
+        out.append("".join(r.choice([chr(cp), "a", "/", "*"]) for _ in range(r.randint(1, 4))).replace("//", "/"))
+    out = list(dict.fromkeys(out))
     seen = set(out)
     while len(out) < n:
         s = "".join(r.choice(ALPHA) for _ in range(r.randint(1, 9)))
